@@ -907,7 +907,7 @@ class Run:
             self._fire(trg)
 
     # ------------------------------------------------------------------
-    def execute(self, cpu_budget: float = 60.0) -> "Run":
+    def execute(self, cpu_budget: float = 25.0) -> "Run":
         _setup_logging()
         _capture.run = self
         sim = self.sim
@@ -921,7 +921,7 @@ class Run:
             for a in self.plan.get('actions', []):
                 sim.at(a['t'], self.do_action, a)
             sim.run(until=float(self.plan.get('until', 60.0)),
-                    max_steps=int(self.plan.get('max_steps', 400_000)))
+                    max_steps=int(self.plan.get('max_steps', 150_000)))
         except core.StepCapReached as e:
             self.step_capped = True
             self.error = e
@@ -1010,7 +1010,7 @@ _EDITS: dict[str, Callable[[dict[str, Any]], Callable[[dict[str, Any]], None]]] 
 }
 
 
-def run_plan(plan: dict[str, Any], cpu_budget: float = 60.0) -> Run:
+def run_plan(plan: dict[str, Any], cpu_budget: float = 25.0) -> Run:
     run = Run(plan)
     run.execute(cpu_budget=cpu_budget)
     return run
